@@ -37,6 +37,8 @@
 (*   dnsdest   "none" | "forever" | "off": the -connect-to destination is a   *)
 (*             name served by the driver's DNS server (-resolvers), with the *)
 (*             default -dns-ttl (kept for ever) or -dns-ttl=-1 (not kept);   *)
+(*             "expire": -dns-ttl=100ms, and the name stops resolving 0.3 s  *)
+(*             into a run of two seconds                                     *)
 (*             o.dnsq = the number of address queries the server received    *)
 (*   lookup    the targets name the server as localhost (looked up by the     *)
 (*             caching dialer) and -dns-ttl=1us: the ttl is how long an      *)
@@ -86,7 +88,7 @@ Valid(c) ==
     /\ (c.h2c => c.server = "h2c") /\ c.trust \in {"na", "insecure", "rootcert", "none"}
     /\ (c.stall => c = [Base EXCEPT !.stall = TRUE, !.lazy = FALSE, !.rate = 200, !.maxw = 64])
     /\ (c.lookup => c.server = "plain" /\ ~c.connectto /\ ~c.laddr /\ ~c.hosthdr)
-    /\ c.dnsdest \in {"none", "forever", "off"}
+    /\ c.dnsdest \in {"none", "forever", "off", "expire"} /\ (c.dnsdest = "expire" => ~c.lazy /\ c.rate = 50 /\ c.bad = "none")
     /\ (c.dnsdest # "none" => c.connectto /\ c.server = "plain" /\ c.hosts = 1 /\ ~c.keepalive /\ ~c.laddr /\ c.timeout = "default" /\ c.maxconn = 0)
     /\ (c.head => ~c.body)           \* (a HEAD request is sent without a body here)
     /\ c.rate \in {0, 2, 50, 200}          \* (2 per second: the duration is shorter than one pacing interval) /\ c.maxw \in {1, 3, 64} /\ (c.maxw = 64 => c.stall) /\ c.workers \in {1, 3}
@@ -124,6 +126,7 @@ Single ==
           [Base EXCEPT !.lookup = TRUE], [Base EXCEPT !.lookup = TRUE, !.lazy = FALSE, !.rate = 50, !.maxw = 3],
           [Base EXCEPT !.connectto = TRUE, !.keepalive = FALSE, !.dnsdest = "forever"], [Base EXCEPT !.connectto = TRUE, !.keepalive = FALSE, !.dnsdest = "off"],
           [Base EXCEPT !.connectto = TRUE, !.keepalive = FALSE, !.dnsdest = "forever", !.lazy = FALSE, !.rate = 50, !.maxw = 3],
+          [Base EXCEPT !.connectto = TRUE, !.keepalive = FALSE, !.dnsdest = "expire", !.lazy = FALSE, !.rate = 50, !.maxw = 3],
           [Base EXCEPT !.server = "mtls", !.trust = "insecure", !.clientcert = "pair"], [Base EXCEPT !.server = "mtls", !.trust = "rootcert", !.clientcert = "onefile"],
           [Base EXCEPT !.server = "mtls", !.trust = "insecure"], [Base EXCEPT !.server = "tls", !.trust = "insecure", !.clientcert = "pair"],
           [Base EXCEPT !.server = "tls", !.trust = "insecure", !.keepalive = FALSE, !.tickets = TRUE], [Base EXCEPT !.server = "tls", !.trust = "rootcert", !.tickets = TRUE],
@@ -229,7 +232,7 @@ CmdOK(c, o) ==
        \* sequence numbers are 0..n-1, each once
        /\ {o.results[k].seq : k \in 1..Len(o.results)} = 0..(Len(o.results) - 1)
        \* (in the stalled run a hit may well run into its 100 ms timeout: its results are not judged one by one)
-       /\ (~c.stall => \A k \in 1..Len(o.results) : o.results[k].kind = "hit" => ResultOK(c, o, o.results[k]))
+       /\ (~c.stall /\ c.dnsdest # "expire" => \A k \in 1..Len(o.results) : o.results[k].kind = "hit" => ResultOK(c, o, o.results[k]))
        /\ (~c.stall => \A j \in 1..Len(o.reqs) : RequestOK(c, o, o.reqs[j]))
        \* while nobody takes results every released hit occupies a worker: with fewer than max-workers busy it still starts at once
        \* (o.early = requests the server saw begin before the reader of the output started to read, a second into the attack:
@@ -245,7 +248,7 @@ CmdOK(c, o) ==
                /\ (c.maxw = 1 => \A k \in 1..K : Hits(o)[k].idx = k /\ Hits(o)[k].seq = k - 1)
           ELSE /\ Ends(o) = <<>>
                /\ Len(Hits(o)) >= 1
-               /\ (c.rate > 0 => Len(Hits(o)) <= (c.rate * (IF c.stall THEN 1200 ELSE DurMs)) \div 1000 + 1)
+               /\ (c.rate > 0 => Len(Hits(o)) <= (c.rate * (IF c.stall THEN 1200 ELSE IF c.dnsdest = "expire" THEN 2000 ELSE DurMs)) \div 1000 + 1)
                /\ (c.maxw = 1 => \A k \in 1..Len(Hits(o)) : Hits(o)[k].idx = ((Hits(o)[k].seq) % K) + 1)
        \* -max-workers bounds what the server sees at once; with an unlimited rate and slow answers the capacity is used
        \* (a request the client gave up on is still running in the server: cases with a timeout are left out)
@@ -260,6 +263,9 @@ CmdOK(c, o) ==
        \* the -dns-ttl policy - kept for ever by default (one lookup however many connections), none kept with -1
        /\ (c.dnsdest = "forever" /\ Reaches(c) => o.dnsq = 1)
        /\ (c.dnsdest = "off" /\ Reaches(c) => o.dnsq >= Len(o.reqs))
+       \* -dns-ttl=100ms over two seconds, the name gone after 0.3 s: hits succeed while it resolves; once the answer is older
+       \* than the ttl it is asked for again, so from 0.7 s after the name went no hit succeeds any more
+       /\ (c.dnsdest = "expire" /\ Reaches(c) => o.early_ok >= 1 /\ o.late_n >= 1 /\ o.late_ok = 0)
        \* -session-tickets: without it no TLS session is ever resumed; with it one sequential worker that opens a connection per
        \* request makes one full handshake, every later connection resumes the session
        /\ (~c.tickets => \A j \in 1..Len(o.reqs) : ~o.reqs[j].resumed)
